@@ -69,6 +69,9 @@ func verifWordKind(token string) (kind int) {
 	return
 }
 
+// VerifWordKind is verifWordKind, exported.
+func VerifWordKind(token string) int { return verifWordKind(token) }
+
 // VerifShellSplit runs the real splitIntoShellTokens and classifies every token.
 func VerifShellSplit(program string) (tokens []string, rest string, kinds []int, panicked string) {
 	_, line := verifC11Reset()
